@@ -246,7 +246,15 @@ def run_case(case):
         ref = x.numpy().reshape((-1,) + tuple(case["shape"][k:]))
         if tuple(m.shape) != ref.shape or not np.array_equal(m.numpy(), ref):
             res.fail("wrong_value", "merge_leading_dims", "merge != numpy reshape")
-        back = U.split_leading_dim(m, case["shape"][:k])
+        shape_arg = list(case["shape"][:k])       # a list the caller keeps: it must come back unchanged
+        back = U.split_leading_dim(m, shape_arg)
+        if shape_arg != list(case["shape"][:k]):
+            res.fail("arg_mutated", "split_leading_dim", "the shape argument (a list) was modified: %r -> %r" % (list(case["shape"][:k]), shape_arg))
+            return res
+        for alt in (tuple(case["shape"][:k]), torch.Size(case["shape"][:k])):
+            if not torch.equal(U.split_leading_dim(m, alt), back):
+                res.fail("wrong_value", "split_leading_dim", "result depends on the type of the shape argument (%s)" % type(alt).__name__)
+                return res
         if tuple(back.shape) != tuple(x.shape) or not torch.equal(back, x):
             res.fail("not_inverse", "split_leading_dim", "split(merge(x)) != x")
         again = U.merge_leading_dims(back, k)
